@@ -8,7 +8,7 @@ From Coq Require Import List Ascii ZArith Bool Lia.
 From CGV Require Import Base.PyBase Base.PyVal Base.NxGraph Dialect.DialectImpl Frag.NDict Frag.StripImpl Frag.FragText Frag.FragProofs
      Frag.SmilesParse Frag.SmilesSpec Frag.Template Frag.TemplateFinal Frag.TemplateGraph Frag.TemplateCompose
      Resolve.GraphOps Resolve.CopyProofs Resolve.PipelineFull Hydro.HydroDefs
-     Compose.PyEq Compose.CutModel Compose.CutSpecDefs Compose.CutSpecCheck Compose.CutHydrogens Compose.OrderIndep Compose.ComposeFlat
+     Compose.PyEq Compose.CutModel Compose.CutSpecDefs Compose.CutSpecCheck Compose.CutHydrogens Compose.OrderIndep Compose.PartPerm Compose.ComposeFlat
      Stereo.EzImpl Stereo.EzDefs Stereo.EzProofs Stereo.EzStrings Stereo.EzCut Stereo.EzStringCut.
 From CGV Require Hydro.Hydrogens.
 Import ListNotations.
@@ -314,4 +314,110 @@ Proof.
   split; [vm_compute; reflexivity|]. split; [vm_compute; reflexivity|]. split; [vm_compute; reflexivity|]. split; [vm_compute; reflexivity|].
   split; [vm_compute; reflexivity|]. split; [vm_compute; reflexivity|].
   split; (split; [apply existsb_In; vm_compute; reflexivity|vm_compute; tauto]).
+Qed.
+
+(** ---------------------------------------------------------------- the known finding second_anchor_ligand_lower at the level
+    of cuts: {[#A][#B]} / {[#B][#A]} . {#A=F/C(Cl)=[$],#B=[$]=C(Br)/I} - non-vacuity of order_dependence_exact (the two base
+    orders disagree on the bit [early_before] and store trans / cis) *)
+Definition toksF : list tok := [TAtom (S "F"); TSlash true; TAtom (S "C"); TOpen; TAtom (S "Cl"); TClose].
+Definition dcF : decor := {| d_lead := []; d_after := repeat [] 5 ++ [[dd]] |}.
+Definition toksI : list tok := [TAtom (S "C"); TOpen; TAtom (S "Br"); TClose; TSlash true; TAtom (S "I")].
+Definition dcI : decor := {| d_lead := [dd]; d_after := repeat [] 6 |}.
+Definition tF := render (decorate toksF dcF).
+Definition tI := render (decorate toksI dcI).
+Definition ezF : ndict ascii := [(1%nat, "/"%char); (0%nat, "/"%char)].
+Definition Cw : cut :=
+  {| c_atoms := [(0, hatom "F" 0); (2, hatom "C" 2); (4, hatom "Cl" 0); (1, hatom "C" 2); (3, hatom "Br" 0); (5, hatom "I" 0)];
+     c_bonds := [ {| cb_u := 2; cb_v := 1; cb_ord := VInt 2; cb_lab := []; cb_dollar := true |}; sbond 0 2; sbond 2 4; sbond 1 3; sbond 1 5 ];
+     c_parts := [(nA, [0; 2; 4]); (nB, [1; 3; 5])]; c_dord := [] |}.
+Definition outF1 : res full_out := Eval vm_compute in resolve_string fo0 (sAB tF tI).
+Definition outF2 : res full_out := Eval vm_compute in resolve_string fo0 (sBA tF tI).
+Lemma readingF : exists T0, frag_reading fo0 Cw nA [0; 2; 4] toksF dcF ezF T0.
+Proof. apply readingb_sound. vm_compute. reflexivity. Qed.
+Lemma readingI : exists T0, frag_reading fo0 Cw nB [1; 3; 5] toksI dcI ez02 T0.
+Proof. apply readingb_sound. vm_compute. reflexivity. Qed.
+
+Example order_dependence_nonvacuous :
+  to_string (sAB tF tI) = "{[#A][#B]}.{#A=F/C(Cl)=[$],#B=[$]=C(Br)/I}"%string /\
+  to_string (sBA tF tI) = "{[#B][#A]}.{#A=F/C(Cl)=[$],#B=[$]=C(Br)/I}"%string /\
+  exists fd o1 o2,
+    let tok := tok2 [0; 2; 4] [1; 3; 5] ezF ez02 in let C2 := swap_parts Cw in
+    wf_cut Cw /\ templates_ok Cw fd /\ wf_dict fd /\ is_base Cw (next_meta baseAB) /\ heavy_payload Cw /\ numeric_orders Cw /\
+    wf_cut C2 /\ templates_ok C2 fd /\ is_base C2 (next_meta baseBA) /\ heavy_payload C2 /\ numeric_orders C2 /\
+    (forall name xs T i x n, In (name, xs) (c_parts Cw) -> fd_get name fd = Some T ->
+       nth_error xs i = Some x -> gfind (Z.of_nat i) T = Some n -> aget ezk (na n) = tok x) /\
+    (forall name xs T i x n, In (name, xs) (c_parts C2) -> fd_get name fd = Some T ->
+       nth_error xs i = Some x -> gfind (Z.of_nat i) T = Some n -> aget ezk (na n) = tok x) /\
+    resolve_step_full true true fd baseAB (Some (fo_m3 o1)) = Ok o1 /\ resolve_step_full true true fd baseBA (Some (fo_m3 o2)) = Ok o2 /\
+    resolve_string fo0 (sAB tF tI) = Ok o1 /\ resolve_string fo0 (sBA tF tI) = Ok o2 /\
+    let m1 := mapping_of_out o1 in let m2 := mapping_of_out o2 in
+    sort_mapping (fo_m4 o1) = Ok m1 /\ sort_mapping (fo_m4 o2) = Ok m2 /\
+    early_before Cw 0 2 1 5 = true /\ early_before C2 0 2 1 5 = false /\
+    is_new (fo_m5 o1) (fo_mol o1) (map_get m1 (phi Cw 0))
+      (ez_tuple (map_get m1 (phi Cw 0)) (map_get m1 (phi Cw 2)) (map_get m1 (phi Cw 1)) (map_get m1 (phi Cw 5)) v_trans) /\
+    is_new (fo_m5 o2) (fo_mol o2) (map_get m2 (phi C2 0))
+      (ez_tuple (map_get m2 (phi C2 0)) (map_get m2 (phi C2 2)) (map_get m2 (phi C2 1)) (map_get m2 (phi C2 5)) v_cis).
+Proof.
+  split; [vm_compute; reflexivity|]. split; [vm_compute; reflexivity|].
+  destruct readingF as [TF RF]. destruct readingI as [TI RI].
+  assert (W1 : wf_cut Cw) by (apply wf_cutb_sound; vm_compute; reflexivity).
+  assert (W2 : wf_cut (swap_parts Cw)) by (apply wf_cutb_sound; vm_compute; reflexivity).
+  assert (P1 : parts_AB Cw [0; 2; 4] [1; 3; 5]) by (left; reflexivity).
+  assert (H1 : heavy_payload Cw) by (apply heavy_payloadb_sound; vm_compute; reflexivity).
+  assert (N1 : numeric_orders Cw) by (apply numeric_ordersb_sound; vm_compute; reflexivity).
+  assert (NbA : S "[#A][#B]" <> []) by discriminate. assert (NbB : S "[#B][#A]" <> []) by discriminate.
+  assert (HbA : ~ In "}"%char (S "[#A][#B]")) by (vm_compute; intuition discriminate).
+  assert (HbB : ~ In "}"%char (S "[#B][#A]")) by (vm_compute; intuition discriminate).
+  assert (Sep : ~ In ","%char tF /\ ~ In ","%char tI /\ ~ In "}"%char tF /\ ~ In "}"%char tI) by (repeat split; vm_compute; intuition discriminate).
+  assert (R1 : resolve_string fo0 (sAB tF tI) = Ok (get_out outF1)) by (vm_compute; reflexivity).
+  assert (R2 : resolve_string fo0 (sBA tF tI) = Ok (get_out outF2)) by (vm_compute; reflexivity).
+  pose proof (two_templates_ok _ _ _ _ _ _ _ _ _ _ _ _ RF RI P1) as TO.
+  pose proof (two_tok _ _ _ _ _ _ _ _ _ _ _ _ RF RI P1 W1) as TK.
+  exists [(nA, tmpl_graph TF); (nB, tmpl_graph TI)], (get_out outF1), (get_out outF2). cbv zeta.
+  split; [exact W1|]. split; [exact TO|]. split; [exact (two_wf_dict _ _ _ _ _ _ _ _ _ _ _ _ RF RI)|].
+  split; [apply is_baseb_sound; vm_compute; reflexivity|]. split; [exact H1|]. split; [exact N1|].
+  split; [exact W2|]. split; [exact (pp_templates Cw _ W1 (swap_pperm Cw) _ TO)|]. split; [apply is_baseb_sound; vm_compute; reflexivity|].
+  split; [exact (heavy_payload_pp _ _ (swap_pperm Cw) H1)|]. split; [exact (numeric_orders_pp _ _ (swap_pperm Cw) N1)|].
+  split; [exact TK|].
+  split; [intros name xs T i x n I; apply TK; apply (Permutation.Permutation_in _ (pp_parts _ _ (swap_pperm Cw)) I)|].
+  split; [exact (string_step _ _ _ _ _ _ _ _ _ _ _ _ RF RI (S "[#A][#B]") baseAB NbA HbA (read_baseAB fo0) Sep _ R1)|].
+  split; [exact (string_step _ _ _ _ _ _ _ _ _ _ _ _ RF RI (S "[#B][#A]") baseBA NbB HbB (read_baseBA fo0) Sep _ R2)|].
+  split; [exact R1|]. split; [exact R2|].
+  split; [vm_compute; reflexivity|]. split; [vm_compute; reflexivity|]. split; [vm_compute; reflexivity|]. split; [vm_compute; reflexivity|].
+  split; (split; [apply existsb_In; vm_compute; reflexivity|vm_compute; tauto]).
+Qed.
+
+(** ---------------------------------------------------------------- ONE FRAGMENT against the cut at the double bond:
+    {[#A]}.{#A=C(Cl)(/CC)=C(Br)/CCC}  vs  {[#A][#B]}.{#A=[$]=C(Cl)/CC,#B=[$]=C(Br)/CCC}  (non-vacuity of one_vs_two_strings) *)
+Definition toksS : list tok := toksP ++ [TAtom (S "C")].
+Definition dcS : decor := {| d_lead := []; d_after := repeat [] 18 |}.
+Definition tS := render (decorate toksS dcS).
+Definition xsS : list Z := [0; 2; 4; 6; 1; 3; 5; 7; 9].
+Definition C1s : cut :=
+  {| c_atoms := [(0, hatom "C" 0); (2, hatom "Cl" 0); (4, hatom "C" 2); (6, hatom "C" 3); (1, hatom "C" 0); (3, hatom "Br" 0);
+                 (5, hatom "C" 2); (7, hatom "C" 2); (9, hatom "C" 3)];
+     c_bonds := c_bonds C12; c_parts := [(nA, xsS)]; c_dord := [] |}.
+Definition outS : res full_out := Eval vm_compute in resolve_string fo0 (sA tS).
+Lemma readingS : exists T0, frag_reading fo0 C1s nA xsS toksS dcS ezP T0.
+Proof. apply readingb_sound. vm_compute. reflexivity. Qed.
+
+Example one_vs_two_nonvacuous :
+  to_string (sA tS) = "{[#A]}.{#A=C(Cl)(/CC)=C(Br)/CCC}"%string /\
+  (exists T0, frag_reading fo0 C1s nA xsS toksS dcS ezP T0) /\ c_parts C1s = [(nA, xsS)] /\
+  wf_cut C1s /\ heavy_payload C1s /\ numeric_orders C1s /\ is_base C1s (next_meta baseA) /\
+  ~ In ","%char tS /\ ~ In "}"%char tS /\
+  let tk1 := tok1f xsS ezP in
+  tk1 4 = Some (tok_of true (wb C1s 4 0)) /\ tk1 5 = Some (tok_of true (wb C1s 5 1)) /\ late_after C1s 4 0 1 5 = true /\
+  exists o1, resolve_string fo0 (sA tS) = Ok o1 /\
+    let m1 := mapping_of_out o1 in sort_mapping (fo_m4 o1) = Ok m1 /\
+    is_new (fo_m5 o1) (fo_mol o1) (map_get m1 (phi C1s 4))
+      (ez_tuple (map_get m1 (phi C1s 4)) (map_get m1 (phi C1s 0)) (map_get m1 (phi C1s 1)) (map_get m1 (phi C1s 5)) v_cis).
+Proof.
+  split; [vm_compute; reflexivity|]. split; [exact readingS|]. split; [reflexivity|].
+  split; [apply wf_cutb_sound; vm_compute; reflexivity|]. split; [apply heavy_payloadb_sound; vm_compute; reflexivity|].
+  split; [apply numeric_ordersb_sound; vm_compute; reflexivity|]. split; [apply is_baseb_sound; vm_compute; reflexivity|].
+  split; [vm_compute; intuition discriminate|]. split; [vm_compute; intuition discriminate|]. cbv zeta.
+  split; [vm_compute; reflexivity|]. split; [vm_compute; reflexivity|]. split; [vm_compute; reflexivity|].
+  exists (get_out outS). split; [vm_compute; reflexivity|]. split; [vm_compute; reflexivity|].
+  split; [apply existsb_In; vm_compute; reflexivity|vm_compute; tauto].
 Qed.
